@@ -99,16 +99,19 @@ class ServersMixin(object):
         policy = network.stsPolicies.get(server.hostname)
         lastDisconnect = network.lastDisconnectTimes.get(server.hostname)
 
-        if policy is None or lastDisconnect is None:
-            log.debug('No STS policy, or never disconnected from this server. %r %r',
-                policy, lastDisconnect)
+        if policy is None:
+            log.debug('No STS policy for this server.')
             return server
 
         # The policy was stored, which means it was received on a secure
         # connection.
         policy = ircutils.parseStsPolicy(log, policy, parseDuration=True)
 
-        if lastDisconnect + policy['duration'] < time.time():
+        # The policy's duration counts from the last disconnection. If none
+        # was recorded (eg. the process was killed while connected), the policy
+        # did not start to expire yet.
+        if lastDisconnect is not None and \
+                lastDisconnect + policy['duration'] < time.time():
             log.info('STS policy expired, removing.')
             network.expireStsPolicy(server.hostname)
             return server
